@@ -11,7 +11,7 @@ import numpy as np
 sys.path.insert(0, os.path.dirname(os.path.dirname(os.path.abspath(__file__))))
 from harness.core import main  # noqa
 from harness import programs  # noqa
-from checks import dagexec_p1, realexec  # noqa
+from checks import dagexec_p1, realexec, suitetrace  # noqa
 
 
 def special_programs(rng, n):
@@ -72,6 +72,7 @@ def run(chk):
                           replay=dict(meta=meta, clause=verdict, at=l, event=ev, plan=doc["plan"]))
     if first_ok is not None:
         realexec.selftest(chk, "C13", first_ok)
+    suitetrace.run(chk, "C13")      # every computation of the repository's own tests, judged by the same monitor
     chk.extra["executors"] = {e: sum(1 for m in metas if m["executor"] == e) for e in set(m["executor"] for m in metas)}
 
 
